@@ -352,8 +352,8 @@ where
     let size = p.bound_plus_1();
     let domain = p.domain();
     let mut rng = tape::fork(Stream::Workload, "fri.poly");
-    let kind = tape::weighted(Stream::Faults, "fri.fault", &[0, 3, 2, 2, 3, 2, 2, 2, 3, 2, 2, 2, 2, 2]);
-    let names = ["none", "high_degree", "random_function", "understated_bound", "layer_value_sub", "layer_proof_node_sub", "remainder_sub_plain", "remainder_sub_degree_raising", "remainder_sub_adaptive", "layer_drop", "layer_dup", "layer_swap", "commitment_sub", "remainder_sub_adaptive_without_its_commitment"];
+    let kind = tape::weighted(Stream::Faults, "fri.fault", &[0, 3, 2, 2, 3, 2, 2, 2, 3, 2, 2, 2, 2, 2, 3]);
+    let names = ["none", "high_degree", "random_function", "understated_bound", "layer_value_sub", "layer_proof_node_sub", "remainder_sub_plain", "remainder_sub_degree_raising", "remainder_sub_adaptive", "layer_drop", "layer_dup", "layer_swap", "commitment_sub", "remainder_sub_adaptive_without_its_commitment", "queried_evaluation_sub"];
     let name = names[kind];
     // the data the prover commits to
     let mut max_degree = size - 1;
@@ -516,6 +516,7 @@ where
             let l = tape::f("fri.layer", (img.layers.len() - 1) as u64) as usize;
             img.layers.swap(l, l + 1);
         },
+        14 => {},
         _ => {
             let i = tape::f("fri.commitment", commitments.len() as u64) as usize;
             commitments[i] = H::hash(&frng.next_u64().to_le_bytes());
@@ -537,7 +538,25 @@ where
             return Ok(());
         },
     };
-    let queried: Vec<E> = run.positions.iter().map(|&i| run.evaluations[i]).collect();
+    let mut queried: Vec<E> = run.positions.iter().map(|&i| run.evaluations[i]).collect();
+    if kind == 14 {
+        // the evaluation the verifier was given for one queried position (in a STARK: the DEEP
+        // composition value it computed itself) differs from what the first layer commits to; every
+        // occurrence of that position gets the same wrong value, so the claim is self-consistent
+        let k = tape::f("fri.queried.index", run.positions.len() as u64) as usize;
+        let target = run.positions[k];
+        let delta: E = rand_nonzero(&mut frng);
+        let coset = (domain / p.folding).max(1);
+        let first_in_coset = run.positions.iter().position(|&q| q % coset == target % coset) == run.positions.iter().position(|&q| q == target);
+        if !first_in_coset {
+            stats::probe("probe.tampered_query_is_not_the_first_of_its_coset");
+        }
+        for (q, v) in run.positions.iter().zip(queried.iter_mut()) {
+            if *q == target {
+                *v += delta;
+            }
+        }
+    }
     match fri_verify::<B, E, H>(p, proof, commitments, max_degree, &queried, &run.positions) {
         Ok(Ok(())) => fail!("fri-accepts-bad-data", name, "{}", ctx()),
         Ok(Err(_)) => {
